@@ -1,6 +1,7 @@
 #include "theory.h"
 #include "sat_core.h"
 #include "clause.h"
+#include "verif_hooks.h"
 #include <algorithm>
 
 namespace smt
@@ -46,6 +47,7 @@ namespace smt
         while (sat->decision_level() > bt_level)
             sat->pop();
         // .. and record the no-good..
+        ORATIO_VERIF_ORIGIN(verif::o_theory_conflict);
         sat->record(no_good);
     }
     SMT_EXPORT void theory::record(std::vector<lit> cls) noexcept { sat->record(std::move(cls)); }
